@@ -62,11 +62,12 @@ def rfields(rng, depth, vt, allow_flag=False):
     if depth > 0:
         for k in rng.sample(SUBKEYS, rng.choice([0, 1, 1, 2])):
             sub_fields = rfields(rng, depth - 1, vt, allow_flag=True)
-            fields.append((k, {"t": "sub", "dyn": rng.random() < 0.15, "vals": rvals(rng, sub_fields, vt), "fields": sub_fields}))
+            fields.append((k, {"t": "sub", "dyn": rng.random() < 0.15, "vals": rvals(rng, sub_fields, vt), "fields": sub_fields,
+                               "ct": rng.random() < 0.3}))
         for k in rng.sample(LISTKEYS, rng.choice([0, 0, 1])):
             item_fields = rfields(rng, max(0, depth - 2), vt)
             fields.append((k, {"t": "cfglist", "required": rng.random() < 0.25, "vals": rvals(rng, item_fields, vt),
-                               "fields": item_fields}))
+                               "fields": item_fields, "ct": rng.random() < 0.3}))
     rng.shuffle(fields)
     return fields
 
@@ -223,6 +224,12 @@ def matrix_cases():
     sub = [("a", {"t": "leaf", "kind": ("int", None, 20), "required": False, "default": 5, "callable": True, "sensitive": False}),
            ("inner", {"t": "sub", "dyn": False, "vals": [0], "fields": inner}),
            ("b", {"t": "leaf", "kind": ("bool",), "required": False, "default": None, "callable": False, "sensitive": False})]
+    typed = [("need", {"t": "leaf", "kind": ("int", None, None), "required": True, "default": None, "callable": False, "sensitive": False}),
+             ("t", {"t": "leaf", "kind": ("str", None, None, False, False), "required": False, "default": "ok", "callable": False,
+                    "sensitive": False})]
+    fields_b = [("n", {"t": "leaf", "kind": ("int", 1, 100), "required": False, "default": 3, "callable": False, "sensitive": False}),
+                ("typed", {"t": "sub", "dyn": False, "vals": [0], "fields": typed, "ct": True}),
+                ("rows", {"t": "cfglist", "required": True, "vals": [], "fields": item, "ct": True})]
     fields = [("n", {"t": "leaf", "kind": ("int", 1, 100), "required": False, "default": 3, "callable": False, "sensitive": False}),
               ("s", {"t": "leaf", "kind": ("str", 2, 6, True, True), "required": True, "default": "abc", "callable": False,
                      "sensitive": True}),
@@ -261,7 +268,20 @@ def matrix_cases():
         ((), ("validate", False)), ((), ("validate", True)), ((("key", "sub"),), ("validate", True)),
     ]
     base = {"vt": vt, "dyn": False, "vals": [], "fields": fields}
+    base_b = {"vt": vt, "dyn": False, "vals": [], "fields": fields_b}
+    ops_b = [
+        ((), ("set", "typed", {"need": 1}, "attr")), ((), ("set", "typed", {"t": "x"}, "attr")), ((), ("set", "typed", {"need": 2, "t": "bad!"}, "attr")),
+        ((("key", "typed"),), ("set", "need", 5, "dotted")), ((("key", "typed"),), ("set", "t", "bad!", "attr")),
+        ((), ("load", {"typed": {"need": 3}}, True)), ((), ("load", {"n": 4}, True)), ((), ("reset", "typed")),
+        ((), ("set", "rows", [{"n": 1}], "attr")), ((), ("set", "rows", [], "attr")), ((), ("set", "rows", None, "attr")),
+        ((), ("load", {"rows": []}, True)), ((), ("load", {"rows": None}, True)), ((), ("load", {"rows": [{"n": 2}]}, True)),
+        ((), ("load", {"rows": [{"n": 2}], "typed": {"need": 1}}, True)), ((), ("append", "rows", {"n": 3})), ((), ("reset", "rows")),
+    ]
     cases = []
+    for o in ops_b:
+        cases.append(dict(base_b, kw={}, ops=[o], kind="matrix1b"))
+    for o1, o2 in itertools.product(ops_b, repeat=2):
+        cases.append(dict(base_b, kw={}, ops=[o1, o2], kind="matrix2b"))
     for o in ops:
         cases.append(dict(base, kw={}, ops=[o], kind="matrix1"))
     for kwk, kwv in [("n", 5), ("n", 0), ("s", " Ab "), ("s", ""), ("sub", {"a": 1}), ("sub", {"a": 100}), ("items", [{"n": 1}]),
@@ -371,8 +391,9 @@ def gcase(c):
 class Built:
     """real schema objects of a case, with the bookkeeping the oracles need"""
     def __init__(self, c):
-        from cincoconfig import Schema, ListField, IntField, StringField, BoolField, FeatureFlagField, AnyField
+        from cincoconfig import Schema, ListField, IntField, StringField, BoolField, FeatureFlagField, AnyField, make_type
         self.counter = itertools.count()
+        self.ntypes = 0
         self.vt = {n: (k, bad) for n, k, bad in c["vt"]}
         self.validator_log = []
 
@@ -410,9 +431,17 @@ class Built:
                 if nd["t"] == "leaf":
                     s._add_field(k, mk_leaf(nd))
                 elif nd["t"] == "sub":
-                    s._add_field(k, mk_schema(nd["fields"], nd["dyn"], nd["vals"]))
+                    sub = mk_schema(nd["fields"], nd["dyn"], nd["vals"])
+                    if nd.get("ct"):
+                        self.ntypes += 1
+                        sub = make_type(sub, "CT%d" % self.ntypes)
+                    s._add_field(k, sub)
                 else:
-                    s._add_field(k, ListField(mk_schema(nd["fields"], False, nd["vals"]), required=nd["required"]))
+                    item = mk_schema(nd["fields"], False, nd["vals"])
+                    if nd.get("ct"):
+                        self.ntypes += 1
+                        item = make_type(item, "IT%d" % self.ntypes)
+                    s._add_field(k, ListField(item, required=nd["required"]))
             for n in vals:
                 s._validators.append(mk_validator(n))
             return s
@@ -444,7 +473,7 @@ def snap_val(v):
     if is_cfg(v):
         return snap_cfg(v)
     if isinstance(v, ListProxy) and (len(v) == 0 or all(is_cfg(i) for i in v)) and not isinstance(v.item_field, type(None)) \
-            and type(v.item_field).__name__ == "Schema":
+            and (type(v.item_field).__name__ == "Schema" or isinstance(v.item_field, type)):
         return Proxy(0, [snap_cfg(i) for i in v])
     return copy.deepcopy(v)
 
@@ -470,17 +499,18 @@ def walk_cfgs(c, pre=""):
 
 def navigate(root, ps):
     from cincoconfig import Schema, ListField
+    from cincoconfig.core import ConfigTypeField
     from cincoconfig.fields.list_field import ListProxy
     cfg = root
     for p in ps:
         fld = cfg._schema._fields.get(p[1])
         val = cfg._data.get(p[1])
         if p[0] == "key":
-            if not isinstance(fld, Schema) or not is_cfg(val):
+            if not isinstance(fld, (Schema, ConfigTypeField)) or not is_cfg(val):
                 return None
             cfg = val
         else:
-            if not (isinstance(fld, ListField) and isinstance(fld.field, Schema)) or not isinstance(val, ListProxy):
+            if not (isinstance(fld, ListField) and (isinstance(fld.field, Schema) or isinstance(fld.field, type))) or not isinstance(val, ListProxy):
                 return None
             if not 0 <= p[2] < len(val):
                 return None
@@ -521,7 +551,7 @@ def apply_op(root, ps, o):
         else:
             fld = cfg._schema._fields.get(o[1])
             val = cfg._data.get(o[1])
-            if not (isinstance(fld, ListField) and isinstance(fld.field, Schema)) or not isinstance(val, ListProxy):
+            if not (isinstance(fld, ListField) and (isinstance(fld.field, Schema) or isinstance(fld.field, type))) or not isinstance(val, ListProxy):
                 return "nav"
             if o[0] == "append":
                 val.append(copy.deepcopy(o[2]))
